@@ -80,6 +80,22 @@ def scenarios():
                         k += 1
                         add("t%d/3" % k, C("t%d" % k, X, Y, L), conj(*(pre + [call(C("findall", tmpl, inner, bag)), call(C("=", L, bag))])))
                         queries.append((C("t%d" % k, V(0), V(1), V(2)), 3))
+        # a goal term built once and called several times with extra arguments (backtracking into a
+        # generator between construction and call; two calls in a row; recursion over a list)
+        G = V(4)
+        for body in (conj(call(C("=", G, C("g", X))), call(C("sel", L)), call(C("call", G, Y))),
+                     conj(call(C("=", G, A("g"))), call(C("call", G, X, Y)), call(C("call", G, L, V(5)))),
+                     conj(call(C("=", G, C("g", X))), call(C("call", G, Y)), call(C("call", G, V(5))), call(C("=", L, G))),
+                     conj(call(C("=", G, C("sel"))), call(C("maplist1", G, lst([X, Y]))))):
+            k += 1; add("t%d/3" % k, C("t%d" % k, X, Y, L), body); queries.append((C("t%d" % k, V(0), V(1), V(2)), 3))
+        script["sel/1"] = [clause(C("sel", A("s1"))), clause(C("sel", A("s2")))]
+        script["maplist1/2"] = [clause(C("maplist1", V(900), NIL)),
+                                clause(C("maplist1", V(0), lst([V(1)], V(2))), and_(call(C("call", V(0), V(1))), call(C("maplist1", V(0), V(2)))))]
+        # successive unifications over variables that are already aliased
+        for body in (conj(call(C("=", Y, X)), call(C("=", X, Y))), conj(call(C("=", Y, X)), call(C("=", X, Y)), call(C("=", X, A("a")))),
+                     conj(call(C("=", Y, L)), call(C("=", L, X)), call(C("=", X, Y))), conj(call(C("=", X, Y)), call(C("=", Y, X)), call(C("\\=", X, A("b")))),
+                     conj(call(C("=", X, X)), call(C("=", X, Y)), call(C("=", Y, Y)), call(C("=", L, C("f", X, Y))))):
+            k += 1; add("t%d/3" % k, C("t%d" % k, X, Y, L), body); queries.append((C("t%d" % k, V(0), V(1), V(2)), 3))
         # atoms as goals: once(h), findall(x, h, L), call(h)
         for b in (call(C("once", A("h"))), call(C("findall", A("x"), A("h"), L)), call(C("call", A("h"))),
                   conj(call(C("=", V(4), A("h"))), call(C("findall", A("x"), V(4), L))),
@@ -105,6 +121,7 @@ def scenarios():
         # one query per scenario keeps a failure from hiding the others; the scenario carries only
         # the clause its query needs (plus the goal predicates)
         base = {k: v for k, v in script.items() if not (k[0] == "t" and k[1].isdigit())}
+        queries.extend([(C("=", V(0), V(0)), 1), (C("call", C("=", V(0)), V(1)), 2)])
         for i, (g, qnv) in enumerate(queries):
             sc = dict(base)
             key = "%s/%d" % (g["n"], len(g.get("a", [])))
